@@ -256,6 +256,18 @@ impl<'tcx> Cx<'tcx> {
             }
         } else if let Const::Val(ConstValue::ZeroSized, _) = c {
             j.key("zst").bool(true);
+        } else if let Const::Val(ConstValue::Scalar(mir::interpret::Scalar::Ptr(ptr, _)), _) = c {
+            // reference to a static / fn / memory
+            let aid = ptr.provenance.alloc_id();
+            match tcx.global_alloc(aid) {
+                mir::interpret::GlobalAlloc::Static(sd) => {
+                    j.key("static").str(&dpath(tcx, sd));
+                }
+                mir::interpret::GlobalAlloc::Function { instance } => {
+                    j.key("fnptr_to").str(&dpath(tcx, instance.def_id()));
+                }
+                _ => {}
+            }
         }
         j.key("s").str(&format!("{c}"));
         j.obj_end();
@@ -980,6 +992,30 @@ fn export<'tcx>(tcx: TyCtxt<'tcx>) -> String {
             j.key("parent_kind").str(&format!("{:?}", tcx.def_kind(p)));
         }
         let generic = tcx.generics_of(did).requires_monomorphization(tcx);
+        if !generic {
+            if let ty::Adt(adt, _) = cty.kind() {
+                if adt.is_struct() {
+                    if let Ok(v) = tcx.const_eval_poly(did) {
+                        if let Some(d) = tcx.try_destructure_mir_constant_for_user_output(v, cty) {
+                            let var = adt.non_enum_variant();
+                            j.key("fields").obj_begin();
+                            for (fd, (fv, fty)) in var.fields.iter().zip(d.fields.iter()) {
+                                if let Some(si) = fv.try_to_scalar_int() {
+                                    let size = si.size();
+                                    let bits = si.to_bits(size);
+                                    if fty.is_signed() {
+                                        j.key(fd.name.as_str()).raw(&format!("{}", size.sign_extend(bits) as i128));
+                                    } else {
+                                        j.key(fd.name.as_str()).raw(&format!("{bits}"));
+                                    }
+                                }
+                            }
+                            j.obj_end();
+                        }
+                    }
+                }
+            }
+        }
         if !generic && (cty.is_integral() || cty.is_bool() || cty.is_floating_point()) {
             if let Ok(v) = tcx.const_eval_poly(did) {
                 if let Some(si) = v.try_to_scalar_int() {
